@@ -161,7 +161,15 @@ class PreprocessorData:
         return self.result_ops, self.labels
 
     def insert_segment(self, next_segment_start: int) -> None:
-        self.labels[f'{wflip_start_label}{self.curr_segment_index}'] = self.curr_address
+        wflip_label = f'{wflip_start_label}{self.curr_segment_index}'
+        if wflip_label in self.labels:
+            # a user label with that very name was already declared (the other order is caught by insert_label).
+            macro_resolve_error(
+                self.curr_tree,
+                f'label declared twice - "{wflip_label}" on {self.labels_code_positions.get(wflip_label)} '
+                f'and an internal label of the assembler',
+            )
+        self.labels[wflip_label] = self.curr_address
         self.curr_segment_index += 1
 
         self.patch_last_wflip_address()
